@@ -30,6 +30,9 @@ def mkSpec (kind : String) (n isz ial : Nat) (part fast reloc : Bool) (fullFrom 
 structure St where
   sp : Spec
   fam : Nat
+  /-- largest legal log2(bucket count): `HashSetBuckets::Create` throws `std::length_error("Invalid bucket count")` above it
+      (HashSet.h:54-56, `maxBucketCount = maxSize / sizeof(Bucket)`; the harness reads it off the instantiated type) -/
+  maxlog : Nat := 64
   a : Table := emptyTable
   b : Table := emptyTable
   handle : Option Item := none
@@ -41,7 +44,8 @@ def init (args : List String) : St :=
   { sp := mkSpec (kv args "kind" "LimP4") n (nat! (kv args "isz" "8")) (nat! (kv args "ial" "8"))
             (kv args "part" "0" == "1") (kv args "fast" "1" == "1") (kv args "reloc" "1" == "1")
             (nat! (kv args "fullFrom" (toString n))) (nat! (kv args "logstart" "4")),
-    fam := nat! (kv args "hash" "3") }
+    fam := nat! (kv args "hash" "3"),
+    maxlog := nat! (kv args "maxlog" "64") }
 
 def summary (sp : Spec) (t : Table) : String :=
   s!"c={t.count} cap={t.cap} g={",".intercalate (t.gens.map (fun g => toString g.L))} s={layoutSum sp t}"
@@ -55,6 +59,20 @@ def parseFaults (toks : List String) : Faults × Bool :=
     else if t == "fh" then (acc.1, true)
     else if t.startsWith "rs=" then ({ acc.1 with relocStop := some (nat! (t.drop 3).toString) }, acc.2)
     else acc) ({}, false)
+
+/-- the bucket-array size `Reserve(c)` asks `HashSetBuckets::Create` for (the loop of HashSet.h:696-705; the same loop as in
+    `Momo.HT.reserve`, evaluated here without building the bucket array) -/
+def reserveLog (sp : Spec) (t : Table) (c : Nat) : Nat :=
+  let rec grow (fuel nl : Nat) : Nat :=
+    match fuel with
+    | 0 => nl
+    | fuel+1 => if capacityOf sp nl ≥ c then nl else grow fuel (nl + 1)
+  grow 64 (newLog sp t)
+
+/-- `nl=<L>` on an insertion into a table without buckets: the hash traits answer `L` to `GetLogStartBucketCount`
+    (an input of the operation, like the hash function) -/
+def forcedLog (toks : List String) : Option Nat :=
+  (toks.find? (fun t => t.startsWith "nl=")).map (fun t => nat! (t.drop 3).toString)
 
 def outStr : Outcome → String
   | .ok => "1"
@@ -74,6 +92,8 @@ def insertOp (s : St) (which : Bool) (k v : Nat) (ftoks : List String) : St × S
   match findTable s.sp (hf s) t k with
   | some _ => (s, "0")
   | none =>
+    -- pvAddGrow of a table without buckets: Buckets::Create(GetLogStartBucketCount()) before anything is changed
+    if t.gens.isEmpty && (forcedLog ftoks).any (· > s.maxlog) then (s, "E:length") else
     let (t', out) := add s.sp (hf s) t ⟨k, v⟩ f
     ((if which then { s with b := t' } else { s with a := t' }), outStr out)
 
@@ -96,6 +116,8 @@ def step (s : St) (toks : List String) : St × String :=
       let (t, n) := removePred s.a (fun it => it.key % (nat! m) == nat! r)
       ({ s with a := t }, toString n)
     | "reserve" :: c :: f =>
+      -- Reserve: Buckets::Create is the first thing after the size loop; it throws before the table is touched
+      if nat! c > s.a.cap && reserveLog s.sp s.a (nat! c) > s.maxlog then (s, "E:length") else
       let (t, out) := reserve s.sp (hf s) s.a (nat! c) (parseFaults f).1
       ({ s with a := t }, if out == .ok then "ok" else "E:throw")
     | ["clear", sh] => ({ s with a := clear s.sp s.a (sh == "1") }, "ok")
